@@ -12,6 +12,7 @@ def gen(tier, rng):
     return base
 FAMILIES = [
     Family("solve_random", "solve", gen, nontrivial=lambda c, i: True, prop_judge=plevel.judge_solve),
+    Family("solve_alldiff_wide", "solve", ec.gen_alldiff_wide(ec.entry_first, 2000, 60000), nontrivial=lambda c, i: True, prop_judge=plevel.judge_solve),
     Family("solve_structured", "solve", lambda tier, rng: [c for c in ec.structured(tier, rng) if c.endswith("first")], nontrivial=lambda c, i: True, prop_judge=plevel.judge_solve),
 ]
 
